@@ -521,10 +521,17 @@ func c11Numeric(p *chk.Prog, r *chk.Report) {
 			return true
 		})
 		// all returned accumulators are treated alike: a sum that can meet the sentinel through the total
+		derived := 0 // results computed at the return as the saturating sum of two accumulators
 		for _, rt := range f.Graph().Returns() {
 			for _, e := range retResults(rt) {
 				if o := f.ObjOf(e); o != nil {
 					sat[o] = true
+				} else if b := f.MatchNew("saturatingAdd(A, B)", e); b != nil && f.ObjOf(b["A"]) != nil && f.ObjOf(b["B"]) != nil {
+					sat[f.ObjOf(b["A"])] = true
+					sat[f.ObjOf(b["B"])] = true
+					derived++
+				} else {
+					x.Fail("poolCount:result-shape", rt.Pos(), "a count is returned that is neither an accumulator nor the saturating sum of two")
 				}
 			}
 		}
@@ -569,7 +576,7 @@ func c11Numeric(p *chk.Prog, r *chk.Report) {
 			}
 			x.Check("poolCount:"+nm+":only-saturating-updates", pos, ok, "", "accumulator `"+nm+"` can hold the MaxInt64 sentinel and is added to without saturation: a later range wraps it to a negative count")
 		}
-		x.Check("poolCount:accumulators", f.Pos(), len(names) >= 3, "", "expected total, ipv4 and ipv6 accumulators")
+		x.Check("poolCount:accumulators", f.Pos(), len(names)+derived >= 3, "", "expected total, ipv4 and ipv6 accumulators")
 		// every CIDR of the pool contributes: the loop over p.CIDR is never left before its last element
 		for _, rs := range f.RangeLoops(func(e ast.Expr) bool { return f.MatchWith("P.CIDR", e, chk.H("P", isParamIdx(f, 0))) != nil }) {
 			x.Check("poolCount:every-cidr-counted", rs.Pos(), !loopLeavesEarly(f, f.Graph(), rs), "", "the count stops at some range (return / break inside the loop over the pool's CIDRs): the ranges listed after it are not counted")
